@@ -4,6 +4,8 @@ import (
 	"fmt"
 	"go/types"
 	"os"
+	"regexp"
+	"sort"
 	"strings"
 
 	"golang.org/x/tools/go/packages"
@@ -14,6 +16,9 @@ import (
 // Program is the loaded SSA form of /repo's current working tree.
 type Program struct {
 	embedded map[string]bool
+	parents  map[string]map[string]bool // named struct -> named structs that contain it by value (through arrays and anonymous structs)
+	anonTop  map[string]bool            // (unused: anonymous tops are named by their type string)
+	noLayout map[string]bool            // struct types whose pointers are converted from/to pointers of another type
 	Prog  *ssa.Program
 	Pkgs  map[string]*ssa.Package // by import path
 	PPkgs map[string]*packages.Package
@@ -252,4 +257,237 @@ func cmdDump(args []string) {
 			af.WriteTo(os.Stdout)
 		}
 	}
+}
+
+// layoutTops: the named struct types whose allocations can contain a value of the named struct type `key`
+// (pkgpath.Name) by value: the type itself and, transitively, every named struct that has it as a field (through
+// arrays and anonymous structs). The backing array of a slice of T counts as an allocation "of T". ok is false when the
+// type also occurs inside an anonymous struct type that stands alone (no named owner): then nothing is claimed.
+func (p *Program) layoutTops(key string) (tops []string, ok bool) {
+	p.layoutInfo()
+	seen := map[string]bool{}
+	var rec func(k string) bool
+	rec = func(k string) bool {
+		if seen[k] {
+			return true
+		}
+		seen[k] = true
+		if p.anonTop[k] || p.noLayout[k] {
+			return false
+		}
+		for par := range p.parents[k] {
+			if !rec(par) {
+				return false
+			}
+		}
+		return true
+	}
+	if !rec(key) {
+		return nil, false
+	}
+	for k := range seen {
+		tops = append(tops, k)
+	}
+	sort.Strings(tops)
+	return tops, true
+}
+
+func (p *Program) layoutInfo() {
+	if p.parents != nil {
+		return
+	}
+	p.parents = map[string]map[string]bool{}
+	p.anonTop = map[string]bool{}
+	p.noLayout = map[string]bool{}
+	namedKey := func(t types.Type) string {
+		if n, ok := types.Unalias(t).(*types.Named); ok && n.Obj().Pkg() != nil {
+			if _, isStruct := n.Underlying().(*types.Struct); isStruct {
+				return n.Obj().Pkg().Path() + "." + n.Obj().Name()
+			}
+		}
+		return ""
+	}
+	// descend follows by-value layout: owner identifies the type of the enclosing allocation part: the nearest
+	// enclosing named struct, or the anonymous struct type (its type string) at the top of an allocation
+	var descend func(t types.Type, owner string, depth int)
+	descend = func(t types.Type, owner string, depth int) {
+		if t == nil || depth > 12 {
+			return
+		}
+		if k := namedKey(t); k != "" {
+			if owner != "" {
+				if p.parents[k] == nil {
+					p.parents[k] = map[string]bool{}
+				}
+				p.parents[k][owner] = true
+			}
+			return
+		}
+		switch u := types.Unalias(t).Underlying().(type) {
+		case *types.Array:
+			if k := arrayKey(u.Elem()); k != "" && owner != "" {
+				// a slice of the array's elements can point into the owner's allocation
+				if p.parents[k] == nil {
+					p.parents[k] = map[string]bool{}
+				}
+				p.parents[k][owner] = true
+			}
+			descend(u.Elem(), owner, depth+1)
+		case *types.Struct:
+			if owner == "" {
+				owner = canonType(types.TypeString(u, nil))
+			}
+			for i := 0; i < u.NumFields(); i++ {
+				descend(u.Field(i).Type(), owner, depth+1)
+			}
+		}
+	}
+	seen := map[types.Type]bool{}
+	var walk func(t types.Type)
+	walk = func(t types.Type) {
+		if t == nil || seen[t] {
+			return
+		}
+		seen[t] = true
+		switch u := t.(type) {
+		case *types.Named:
+			if k := namedKey(u); k != "" {
+				st := u.Underlying().(*types.Struct)
+				for i := 0; i < st.NumFields(); i++ {
+					descend(st.Field(i).Type(), k, 0)
+					walk(st.Field(i).Type())
+				}
+			} else {
+				walk(u.Underlying())
+			}
+			for i := 0; i < u.NumMethods(); i++ {
+				walk(u.Method(i).Type())
+			}
+		case *types.Alias:
+			walk(types.Unalias(u))
+		case *types.Pointer:
+			walk(u.Elem())
+		case *types.Slice:
+			descend(u.Elem(), "", 0)
+			walk(u.Elem())
+		case *types.Array:
+			descend(u.Elem(), "", 0)
+			walk(u.Elem())
+		case *types.Map:
+			walk(u.Key())
+			walk(u.Elem())
+		case *types.Chan:
+			walk(u.Elem())
+		case *types.Struct:
+			// an anonymous struct type standing alone
+			descend(u, "", 0)
+			for i := 0; i < u.NumFields(); i++ {
+				walk(u.Field(i).Type())
+			}
+		case *types.Signature:
+			walk(u.Params())
+			walk(u.Results())
+		case *types.Tuple:
+			for i := 0; i < u.Len(); i++ {
+				walk(u.At(i).Type())
+			}
+		case *types.Interface:
+			for i := 0; i < u.NumMethods(); i++ {
+				walk(u.Method(i).Type())
+			}
+		}
+	}
+	seenPkg := map[string]bool{}
+	var visit func(pp *packages.Package)
+	visit = func(pp *packages.Package) {
+		if pp == nil || seenPkg[pp.PkgPath] {
+			return
+		}
+		seenPkg[pp.PkgPath] = true
+		if pp.Types != nil {
+			sc := pp.Types.Scope()
+			for _, n := range sc.Names() {
+				walk(sc.Lookup(n).Type())
+			}
+		}
+		if pp.TypesInfo != nil {
+			for _, tv := range pp.TypesInfo.Types {
+				walk(tv.Type)
+			}
+			for _, o := range pp.TypesInfo.Defs {
+				if o != nil {
+					walk(o.Type())
+				}
+			}
+		}
+		for _, imp := range pp.Imports {
+			visit(imp)
+		}
+	}
+	for _, pp := range p.PPkgs {
+		visit(pp)
+	}
+	// a pointer converted to a pointer to another struct type (identical underlying types, or through
+	// unsafe.Pointer) breaks the correspondence between pointer type and allocation type: no facts for such types
+	for fn := range ssautil.AllFunctions(p.Prog) {
+		if fn.Pkg == nil || p.Pkgs[fn.Pkg.Pkg.Path()] == nil {
+			continue
+		}
+		for _, b := range fn.Blocks {
+			for _, ins := range b.Instrs {
+				var from, to types.Type
+				switch x := ins.(type) {
+				case *ssa.ChangeType:
+					from, to = x.X.Type(), x.Type()
+				case *ssa.Convert:
+					from, to = x.X.Type(), x.Type()
+				default:
+					continue
+				}
+				for _, t := range []types.Type{from, to} {
+					if pt, ok := t.Underlying().(*types.Pointer); ok {
+						if k := namedKey(pt.Elem()); k != "" && !types.Identical(from, to) {
+							p.noLayout[k] = true
+						}
+					}
+				}
+			}
+		}
+	}
+}
+
+// arrayKey names the allocations that are arrays of values of type elem (backing arrays of slices, array variables),
+// looking through nested arrays: "[]"+the innermost element type. Empty for named structs (their own key is used).
+func arrayKey(elem types.Type) string {
+	for {
+		a, ok := types.Unalias(elem).Underlying().(*types.Array)
+		if !ok {
+			break
+		}
+		elem = a.Elem()
+	}
+	if n, ok := types.Unalias(elem).(*types.Named); ok {
+		if _, isStruct := n.Underlying().(*types.Struct); isStruct {
+			return ""
+		}
+	}
+	if _, isStruct := types.Unalias(elem).Underlying().(*types.Struct); isStruct {
+		return "" // anonymous struct elements: not tracked
+	}
+	return "[]" + canonType(types.TypeString(elem, nil))
+}
+
+var canonRe = regexp.MustCompile(`\b(byte|rune|any)\b`)
+
+// canonType: one spelling for identical types (byte/uint8, rune/int32, any/interface{}).
+func canonType(s string) string {
+	return canonRe.ReplaceAllStringFunc(s, func(w string) string {
+		switch w {
+		case "byte":
+			return "uint8"
+		case "rune":
+			return "int32"
+		}
+		return "interface{}"
+	})
 }
